@@ -255,14 +255,18 @@ func markPooled(v Value, pooled bool) {
 // ---- time --------------------------------------------------------------------------
 
 func (in *Interp) clock() *virtClock {
-	if in.now == nil {
+	if in.now == nil || in.now.sec0 == nil {
 		sec0 := VarRange("clock.sec0", 64, 1600000000, 2000000000)
 		ns0 := VarRange("clock.ns0", 64, 0, 999999999)
 		in.e.AssumeFresh(rawRange(sec0, 1600000000, 2000000000))
 		in.e.AssumeFresh(rawRange(ns0, 0, 999999999))
 		in.e.inputs = append(in.e.inputs, inputDecl{name: "clock.sec0", kind: "int", t: sec0, w: 64},
 			inputDecl{name: "clock.ns0", kind: "int", t: ns0, w: 64})
-		in.now = &virtClock{sec0: sec0, ns0: ns0}
+		el := int64(0)
+		if in.now != nil {
+			el = in.now.elapsed
+		}
+		in.now = &virtClock{sec0: sec0, ns0: ns0, elapsed: el}
 	}
 	return in.now
 }
@@ -410,6 +414,34 @@ func registerTimeIntrinsics(reg regFn) {
 			t.ch.q = nil
 		}
 		return BoolT(was)
+	})
+	// UnixNano / time.Unix(0, ns) round trip without 64-bit multiplication and division by 10^9
+	// (which stall every solver): the nanosecond count is an uninterpreted, positive value that
+	// remembers its (seconds, nanoseconds) components.
+	reg("(time.Time).UnixNano", func(in *Interp, fr *frame, fn *ssa.Function, a []Value, site string) Value {
+		p := in.prog.ImportedPackage("time")
+		tt := p.Type("Time").Type()
+		unix := in.prog.LookupMethod(tt, p.Pkg, "Unix")
+		nano := in.prog.LookupMethod(tt, p.Pkg, "Nanosecond")
+		sec := in.callFunction(fr, unix, []Value{a[0]}, nil, site).(*Term)
+		ns := in.callFunction(fr, nano, []Value{a[0]}, nil, site).(*Term)
+		if sec.IsConst() && ns.IsConst() {
+			return I64(sec.S()*1000000000 + ns.S())
+		}
+		t := UF("unixnano", 64, sec, ns)
+		in.e.AssumeFresh(Sgt(t, I64(0)))
+		in.e.assumptions["Time.UnixNano of a symbolic instant is an uninterpreted positive value; time.Unix(0, that value) restores the instant (exact for instants between 1678 and 2262)"] = true
+		return t
+	})
+	reg("time.Unix", func(in *Interp, fr *frame, fn *ssa.Function, a []Value, site string) Value {
+		sec, ns := a[0].(*Term), a[1].(*Term)
+		if sec.IsConst() && sec.c == 0 && ns.op == OpUF && ns.name == "unixnano" {
+			p := in.prog.ImportedPackage("time")
+			local := load(in.globalLoc(p.Var("Local")))
+			const unixToInternal = 62135596800
+			return StructV{ns.a[1], Add(ns.a[0], I64(unixToInternal)), local}
+		}
+		return in.callFn(fr, fn, a, nil, site)
 	})
 	reg("runtime.GOROOT", func(in *Interp, fr *frame, fn *ssa.Function, a []Value, site string) Value { return mkStr("/go") })
 	reg("time.initLocal", func(in *Interp, fr *frame, fn *ssa.Function, a []Value, site string) Value { return nil })
